@@ -288,6 +288,8 @@ func runStall(cs *Case) (*Obs, []evRec) {
 		bmu.Unlock()
 		return any
 	}
+	timedOut := make([]bool, n)
+	cancelled := make([]bool, n)
 	phase2.Store(true)
 	for _, o := range cs.Ops {
 		if o.W < 0 || obs.Bad != "" {
@@ -327,11 +329,44 @@ func runStall(cs *Case) (*Obs, []evRec) {
 		if obs.Bad == "" && releaseDue(false) && !waitParked(e, live, false) {
 			obs.Bad = "senders did not settle after a release"
 		}
+		// a Send that never returns: wait for the timer to end that subscription NOW, so that
+		// the remaining writes happen after its paths left the match trie
+		for i := range cs.Subs {
+			bmu.Lock()
+			b := stalls[i].blocked && stalls[i].forever && !timedOut[i]
+			bmu.Unlock()
+			if !b || obs.Bad != "" {
+				continue
+			}
+			timedOut[i] = true
+			select {
+			case <-done[i]:
+				add(evRec{kind: "timeout", i: i})
+			case <-time.After(5 * time.Second):
+				obs.Bad = "a subscription whose Send stays blocked did not end within 5 s (timeout 100 ms)"
+			}
+		}
+		// a client that goes away
+		if cs.CancelSub >= 0 && cs.CancelSub < nearly && nres == cs.CancelAfter && obs.Bad == "" && live(cs.CancelSub) {
+			i := cs.CancelSub
+			bmu.Lock()
+			busy := stalls[i].blocked
+			bmu.Unlock()
+			if !busy {
+				add(evRec{kind: "cancel", i: i})
+				cancelled[i] = true
+				e.streams[i].cancel()
+				select {
+				case <-done[i]:
+				case <-time.After(5 * time.Second):
+					obs.Bad = "Subscribe did not return after its client went away"
+				}
+			}
+		}
 	}
 	// the end: a Send blocked for ever ends its subscription with an error once the timer
 	// fires; the other blocked Sends are released (a released sender may run into its next
 	// planned block, transient or for ever), until nothing moves any more
-	timedOut := make([]bool, n)
 	for k := 0; k < 50 && obs.Bad == ""; k++ {
 		progressed := false
 		for i := range cs.Subs {
@@ -386,6 +421,10 @@ func runStall(cs *Case) (*Obs, []evRec) {
 		case <-done[i]:
 		default:
 			ended[i] = false
+		}
+		if cancelled[i] {
+			ended[i] = true
+			obs.Stalled[i] = 2 // for K_P: this subscription is expected to have ended
 		}
 	}
 	for _, st := range e.streams {
@@ -571,6 +610,8 @@ func (e *emitter) caseTerm(cs *Case, obs *Obs, log []evRec) string {
 			t = fmt.Sprintf("(CL (LSent %s), ONone)", natT(ev.i))
 		case "timeout":
 			t = fmt.Sprintf("(CL (LTimeout %s), ONone)", natT(ev.i))
+		case "cancel":
+			t = fmt.Sprintf("(CL (LCancel %s), ONone)", natT(ev.i))
 		}
 		steps = append(steps, t)
 	}
@@ -731,6 +772,21 @@ func genCase(r *vh.Rand, dead bool) *Case {
 			plan = append(plan, Block{At: 1 + r.Intn(3), Hold: 0})
 		}
 		cs.Plan = append(cs.Plan, plan)
+	}
+	// sibling / nested path pairs: the subscriber that ends and one that stays
+	if r.Chance(1, 2) && nsub >= 2 {
+		pairs := [][2][]string{{{"a", "x"}, {"a", "y"}}, {{"a", "x"}, {"a"}}, {{"a"}, {"a", "x"}}, {{"a", "x"}, {}}, {{"b"}, {"c", "z"}}}
+		pr := pairs[r.Intn(len(pairs))]
+		cs.Subs[0] = SubCfg{Qs: [][]string{append([]string{t}, pr[0]...)}}
+		cs.Subs[1] = SubCfg{Qs: [][]string{append([]string{t}, pr[1]...)}}
+	}
+	cs.CancelSub = -1
+	for i := 0; i < nsub; i++ {
+		if cs.Stall[i] == 0 && r.Chance(1, 3) {
+			cs.CancelSub = i
+			cs.CancelAfter = 1 + r.Intn(3)
+			break
+		}
 	}
 	cs.Plan = append(cs.Plan, nil)
 	cs.Subs = append(cs.Subs, SubCfg{Qs: [][]string{{t}}})
